@@ -66,6 +66,181 @@ def mods_flags(m):
     return "%d%d%d%d" % (m["ascii"], m["wide"], m["nocase"], m["fullword"])
 
 
+def widen(b):
+    return b"".join(bytes([c, 0]) for c in b)
+
+
+def aimed_xor_buffers(text, m, atoms):
+    """buffers on which the verifier may accept a rendering/key that the atom hit does not justify (Model/Verify.v forced_key_ok):
+    the rendering r' xored with a key outside the declared range (or a rendering that is not enabled), with the atom's bytes where
+    the automaton expects them"""
+    lo, hi = m["xor"]
+    asc = m["ascii"] or not m["wide"]
+    outs = []
+    for a, bt in atoms:
+        w0 = bt - len(a)
+        if w0 < 0:
+            continue
+        rends = [(text, asc)] + ([(widen(text), True)] if m["wide"] else [])
+        for r2, enabled in rends:
+            J = [j for j in range(w0, w0 + len(a)) if j < len(r2)]
+            if not J:
+                ks = [k for k in range(256) if not (enabled and lo <= k <= hi)]
+                if not ks:
+                    continue
+                k = ks[len(ks) // 2]
+            else:
+                kk = set(r2[j] ^ a[j - w0] for j in J)
+                if len(kk) != 1:
+                    continue
+                k = kk.pop()
+                if enabled and lo <= k <= hi:
+                    continue
+            data = bytearray(c ^ k for c in r2)
+            while len(data) < w0 + len(a):
+                data.append(0x2e)
+            data[w0:w0 + len(a)] = a
+            outs.append((b".." + bytes(data) + b"..", 2, len(r2), k))
+    return outs[:6]
+
+
+def verifier_model(chk, model, hscan, cases, meta, out, corder):
+    tq, sq = [], []
+    for cid in corder:
+        src, strings, bufs = meta[cid]
+        img = [l for l in out.get(cid, []) if l.startswith("save rc=0 image=")][0].split("image=")[1]
+        q = "textcerts " + img
+        for text, m in strings:
+            lo, hi = m["xor"] if m["xor"] is not None else ("-", "-")
+            q += " %s %s %s %s" % (hx(text), mods_flags(m), lo, hi)
+        tq.append(q)
+        sq.append("scanstr " + img + " " + " ".join(hx(b) if b else "-" for b in bufs))
+    tres, _ = vlib.run_lines(model, tq, timeout=3000)
+    sres, _ = vlib.run_lines(model, sq, timeout=3000)
+    st = {"strings": 0, "sound_cert_true": 0, "complete_cert_true": 0, "outside_completeness_theorem_nul": 0, "fits_in_atom": 0,
+          "model_scans_compared": 0, "model_scans_equal": 0, "sound_cert_false_xor": 0, "aimed_buffers": 0, "aimed_reproduce_known_finding": 0}
+    aimed = []
+    for cid, tr, sr in zip(corder, tres, sres):
+        src, strings, bufs = meta[cid]
+        lines = out.get(cid, [])
+        scans = [l for l in lines if l.startswith("scan msgs=")]
+        certs = tr.split(" | ")
+        for si, (text, m) in enumerate(strings):
+            st["strings"] += 1
+            c = certs[si] if si < len(certs) else tr
+            f = dict(kv.split("=", 1) for kv in c.split() if "=" in kv)
+            st["fits_in_atom"] += f.get("fitsflag") == "true"
+            atoms = [(vlib.unhx(x.split("/")[0]), int(x.split("/")[1])) for x in f.get("atoms", "").split(",") if "/" in x]
+            if f.get("sound") == "true":
+                st["sound_cert_true"] += 1
+            elif m["xor"] is not None and f.get("xorkeys") == "false" and f.get("agree") == "true":
+                st["sound_cert_false_xor"] += 1
+                aimed.append((cid, si, aimed_xor_buffers(text, m, atoms)))
+            else:
+                chk.violation("cert:sound", "the certificate of scan_text_sound fails for string %d of %s: %s" % (si, src[:160], c[:200]),
+                              {"rule": src, "string_index": si, "model": c[:2000]}, found_input=False)
+            if f.get("complete") == "true":
+                st["complete_cert_true"] += 1
+            elif f.get("nonul") == "false":
+                st["outside_completeness_theorem_nul"] += 1      # ascii and wide forms of a string with NUL bytes may overlap: correspondence only
+            elif "cover=false" not in c:
+                chk.violation("cert:complete", "the certificate of scan_text_complete fails for string %d of %s: %s" % (si, src[:160], c[:200]),
+                              {"rule": src, "string_index": si, "model": c[:2000]}, found_input=False)
+        if len(scans) != len(bufs):
+            continue
+        mbufs = sr.split(" ; ")
+        for bi, b in enumerate(bufs):
+            mm = re.search(r"[MN]:default:r:([^;]*);", scans[bi])
+            per = {}
+            if mm:
+                for part in mm.group(1).split("|"):
+                    if "=" in part:
+                        ident, lst = part.split("=", 1)
+                        per[ident] = [tuple(int(x) for x in e.split("/")) for e in lst.split(",") if e]
+            mper = dict(x.split("=", 1) for x in (mbufs[bi].split("|") if bi < len(mbufs) else []) if "=" in x)
+            for si, (text, m) in enumerate(strings):
+                impl = [(e[0], e[1], e[3]) for e in per.get("$s%d" % si, [])]
+                mod = [tuple(int(v) for v in e.split("/")) for e in mper.get(str(si), "").split(",") if e]
+                st["model_scans_compared"] += 1
+                if impl == mod:
+                    st["model_scans_equal"] += 1
+                else:
+                    chk.violation("scanmodel:" + "+".join(sorted(k for k in ("nocase", "wide", "fullword", "ascii") if m[k]) + (["xor"] if m["xor"] is not None else [])),
+                                  "text string %r %s on a %d-byte buffer: implementation records %s, the scan model (stored automaton + literal verifier) %s"
+                                  % (text, rulegen.mods_to_words(m), len(b), impl[:6], mod[:6]),
+                                  {"rule": src, "string_index": si, "buffer_hex": hx(b), "impl": impl, "model": mod,
+                                   "how": "h_scan: newcompiler; add <rule hex>; getrules; save; scanner 0; scan <buffer_hex>   model: scanstr <image> <buffer_hex>"})
+    # aimed buffers for strings whose key certificate fails: the model predicts a match that is not an occurrence
+    acases, ameta = [], {}
+    for n, (cid, si, bl) in enumerate(aimed):
+        if not bl:
+            src = meta[cid][0]
+            chk.violation("cert:sound", "the key certificate fails for string %d of %s and no aimed buffer could be built" % (si, src[:160]),
+                          {"rule": src, "string_index": si}, found_input=False)
+            continue
+        src, strings, _ = meta[cid]
+        acases.append(("a%d" % n, ["newcompiler", "add " + hx(src.encode()), "getrules", "save", "scanner 0"] + ["scan " + hx(b[0]) for b in bl]))
+        ameta["a%d" % n] = (cid, si, bl)
+    if acases:
+        aout, _ = vlib.run_cases(hscan, acases, timeout=3000)
+        q1, q2, order = [], [], []
+        for aid, _ in acases:
+            cid, si, bl = ameta[aid]
+            src, strings, _ = meta[cid]
+            text, m = strings[si]
+            img = [l for l in aout.get(aid, []) if l.startswith("save rc=0 image=")]
+            if not img:
+                continue
+            lo, hi = m["xor"]
+            for b in bl:
+                q1.append("text %s %s %s %s %s" % (hx(text), mods_flags(m), lo, hi, hx(b[0])))
+            q2.append("scanstr " + img[0].split("image=")[1] + " " + " ".join(hx(b[0]) for b in bl))
+            order.append(aid)
+        r1, _ = vlib.run_lines(model, q1, timeout=3000)
+        r2, _ = vlib.run_lines(model, q2, timeout=3000)
+        pos = 0
+        for aid, sr in zip(order, r2):
+            cid, si, bl = ameta[aid]
+            src, strings, _ = meta[cid]
+            text, m = strings[si]
+            scans = [l for l in aout.get(aid, []) if l.startswith("scan msgs=")]
+            mb = sr.split(" ; ")
+            shown = False
+            for bi, b in enumerate(bl):
+                st["aimed_buffers"] += 1
+                spec_offs = set(int(e.split(":")[0]) for e in r1[pos].split(";") if e)
+                pos += 1
+                if bi >= len(scans):
+                    continue
+                mm = re.search(r"[MN]:default:r:([^;]*);", scans[bi])
+                impl = []
+                if mm:
+                    for part in mm.group(1).split("|"):
+                        if part.startswith("$s%d=" % si):
+                            impl = [tuple(int(x) for x in e.split("/")) for e in part.split("=", 1)[1].split(",") if e]
+                impl3 = [(e[0], e[1], e[3]) for e in impl]
+                mper = dict(x.split("=", 1) for x in (mb[bi].split("|") if bi < len(mb) else []) if "=" in x)
+                mod = [tuple(int(v) for v in e.split("/")) for e in mper.get(str(si), "").split(",") if e]
+                extra = [e for e in impl3 if e[0] not in spec_offs]
+                replay = {"rule": src, "string_index": si, "buffer_hex": hx(b[0]), "impl": impl3, "model": mod, "spec_offsets": sorted(spec_offs),
+                          "how": "h_scan: newcompiler; add <rule hex>; getrules; scanner 0; scan <buffer_hex>"}
+                if impl3 != mod:
+                    chk.violation("scanmodel:aimed", "aimed buffer: implementation records %s, the scan model %s" % (impl3[:6], mod[:6]), replay)
+                elif extra:
+                    shown = True
+                    st["aimed_reproduce_known_finding"] += 1
+                    chk.violation("xor-key-outside-range",
+                                  "xor text string %r %s: a match is reported at offset %d with length %d and key 0x%02x, which is not an occurrence under the "
+                                  "declared modifiers (the verifier recomputes the key and never compares it with the range, and tries the ascii form of "
+                                  "wide-only strings; the atom hit only proves another window)" % (text, rulegen.mods_to_words(m), extra[0][0], extra[0][1], extra[0][2]), replay)
+                elif set(e[0] for e in impl3) != spec_offs:
+                    chk.violation("missed:aimed", "aimed buffer: implementation offsets %s, documented %s" % ([e[0] for e in impl3], sorted(spec_offs)), replay)
+            if not shown:
+                chk.violation("cert:sound", "the key certificate fails for string %d of %s but none of the aimed buffers shows a wrong match" % (si, src[:160]),
+                              {"rule": src, "string_index": si, "aimed": [hx(b[0]) for b in bl]}, found_input=False)
+    return st
+
+
 def run(chk):
     tier = chk.tier
     ok, log, st = vlib.proof_obligations(chk, PROPS)
@@ -202,7 +377,11 @@ def run(chk):
                     nontriv.add((mods_flags(m), m["xor"] is not None, min(len(sp), 3), len(text) <= 4, min(sp) == 0, max(sp) + min(x[0] for x in sp[max(sp)]) == len(b)))
                 if any(len(v) > 1 for v in sp.values()):
                     dist["multi_variant_offsets"] += 1
+    # ---- the verifier / scan model (Model/Verify.v): certificates of scan_text_sound / scan_text_complete on every image string,
+    # and the model's match list (offset, length, key) must be EQUAL to the implementation's
+    vstat = verifier_model(chk, model, hscan, cases, meta, out, corder)
     chk.note(evaluations=total, distinct_nontrivial=len(nontriv), traces_validated_against_impl=agree, input_distribution=dist,
+             verifier_model=vstat,
              rule="rules with 1-3 text strings (1..24 bytes over all byte values, every legal modifier combination, xor ranges) x buffers with "
                   "planted variants (offset 0, end, overlapping, near misses, alnum / NUL neighbours, keys outside the range); compared per "
                   "(string, buffer): offsets ascending and equal to the spec's, length/key admissible; distinct = (modifier set, #matches class, "
